@@ -335,7 +335,49 @@ class Pendulum(Problem):
         return abs(k) * float(1.0 + np.max(np.abs(self.g)))
 
 
+class TDOsc(Problem):
+    """q' = k w p (1 + a sin(W t)), p' = -k w q (1 + b cos(W t)): separable with explicitly time-dependent drift AND kick slopes
+    (splitting methods evaluate every sub-step at its own time)."""
+    separable = True
+    autonomous = False
+
+    def __init__(self, desc):
+        super().__init__(desc)
+        self.m = self.n // 2
+        self.w = self.arr(self.params["w"])
+        self.a = float(self.params["a"])
+        self.b = float(self.params["b"])
+        self.W = float(self.params["W"])
+
+    def f(self, t, y, k=1.0, **kw):
+        y = np.asarray(y)
+        m = self.m
+        w = self.w.astype(y.dtype)
+        tt = np.asarray(t, dtype=y.dtype)
+        out = np.empty_like(y)
+        out[:m] = k * w * y[m:] * (1 + y.dtype.type(self.a) * np.sin(y.dtype.type(self.W) * tt))
+        out[m:] = -k * w * y[:m] * (1 + y.dtype.type(self.b) * np.cos(y.dtype.type(self.W) * tt))
+        return out
+
+    def jac(self, t, y, k=1.0, **kw):
+        y = np.asarray(y)
+        m = self.m
+        J = np.zeros((2 * m, 2 * m), dtype=y.dtype)
+        w = self.w.astype(y.dtype)
+        tt = np.asarray(t, dtype=y.dtype)
+        ca = 1 + y.dtype.type(self.a) * np.sin(y.dtype.type(self.W) * tt)
+        cb = 1 + y.dtype.type(self.b) * np.cos(y.dtype.type(self.W) * tt)
+        for i in range(m):
+            J[i, m + i] = k * w[i] * ca
+            J[m + i, i] = -k * w[i] * cb
+        return J
+
+    def lipschitz(self, k=1.0):
+        return abs(k) * float(np.max(np.abs(self.w))) * (1.0 + max(abs(self.a), abs(self.b)))
+
+
 FAMILIES = {
+    "tdosc": TDOsc,
     "linear": Linear,
     "osc": Oscillators,
     "duffing": Duffing,
@@ -363,7 +405,7 @@ def gen_problem(rng, family=None, dtype="float64", want=None):
         if "events" in want:
             family = "osc"
         elif "separable" in want:
-            family = rng.choice(["osc", "duffing", "pendulum"])
+            family = rng.choice(["osc", "duffing", "pendulum", "tdosc"])
         elif "stiff" in want:
             family = "linear"
         elif "exact" in want:
@@ -389,6 +431,11 @@ def gen_problem(rng, family=None, dtype="float64", want=None):
         m = rng.choice([1, 1, 2])
         desc["shape"] = [2 * m]
         desc["params"] = {"w": [_r(rng, 0.7, 3.0) for _ in range(m)]}
+        desc["y0"] = [_r(rng, 0.4, 1.5) * rng.choice([-1, 1]) for _ in range(2 * m)]
+    elif family == "tdosc":
+        m = rng.choice([1, 1, 2])
+        desc["shape"] = [2 * m]
+        desc["params"] = {"w": [_r(rng, 0.7, 2.5) for _ in range(m)], "a": _r(rng, 0.2, 0.7), "b": _r(rng, -0.7, 0.7), "W": _r(rng, 1.0, 4.0)}
         desc["y0"] = [_r(rng, 0.4, 1.5) * rng.choice([-1, 1]) for _ in range(2 * m)]
     elif family == "duffing":
         m = rng.choice([1, 2])
